@@ -10,6 +10,10 @@ import traceback
 
 from . import env
 
+if env.ALT_REPO:   # development aid only, see env.py
+    sys.path.insert(0, env.SRC)
+    os.environ["PYTHONPATH"] = env.SRC + (os.pathsep + os.environ["PYTHONPATH"] if os.environ.get("PYTHONPATH") else "")
+
 
 def main() -> int:
     ap = argparse.ArgumentParser()
